@@ -244,7 +244,9 @@ func responseHandler(ctx context.Context, s types.Store, w http.ResponseWriter, 
 		http.Error(w, errorMsg, http.StatusBadRequest)
 		return
 	}
-	notFoundErrs := make(chan error, 1)
+	// postResponse runs two store writes concurrently, each of which may report an error:
+	// the channel must have room for both, or the second sender blocks forever.
+	notFoundErrs := make(chan error, 2)
 	log.Printf("Posting a response [%q]", response.RequestID)
 	postResponse(ctx, s, response, notFoundErrs)
 	close(notFoundErrs)
